@@ -21,6 +21,8 @@
 package compile
 
 import (
+	"math"
+
 	"go.uber.org/thriftrw/ast"
 	"go.uber.org/thriftrw/wire"
 )
@@ -60,6 +62,13 @@ func compileEnum(file string, src *ast.Enum) (*EnumSpec, error) {
 		if astItem.Value != nil {
 			value = *astItem.Value
 		}
+		if value < math.MinInt32 || value > math.MaxInt32 {
+			return nil, compileError{
+				Target: src.Name + "." + astItem.Name,
+				Line:   astItem.Line,
+				Reason: enumValueOutOfBoundsError{Value: value},
+			}
+		}
 		prev = value
 
 		itemAnnotations, err := compileAnnotations(astItem.Annotations)
@@ -70,7 +79,6 @@ func compileEnum(file string, src *ast.Enum) (*EnumSpec, error) {
 				Reason: err,
 			}
 		}
-		// TODO bounds check for value
 		item := EnumItem{
 			Name:        astItem.Name,
 			Value:       int32(value),
